@@ -17,9 +17,9 @@ TYPES = [
   (r'\bfind_info info\{([^}]*)\};', r'struct find_info info = FI_INIT(\1);', 'find_info_init'),
   (r'std::swap\(', 'XV_SWAP(', 'swap'),
   (r'\bdelete n;', 'XV_DELETE(n);', 'delete'),
-  (r'return \{(.*), (true|false)\};', r'return XV_PAIR(\1, \2);', 'pair'),
-  (r'\*info\.prev\b', '(*XV_PREV(info))', 'prev_deref'),
-  (r'\binfo\.prev->', 'XV_PREV(info)->', 'prev_arrow'),
+  (r'return \{([^;]*), (true|false)\};', r'return XV_PAIR(\1, \2);', 'pair'),
+  (r'(?<![\w.])\*info\.prev\b', '(*XV_PREV(info))', 'prev_deref'),
+  (r'(?<![\w.])info\.prev->', 'XV_PREV(info)->', 'prev_arrow'),
   (r'\bpos\.info\.prev->', 'XV_PREV(pos.info)->', 'pos_prev_arrow'),
 ]
 METHODS = {'acquire_if_equal': 'G_acquire_if_equal', 'acquire': 'G_acquire', 'reclaim': 'G_reclaim', 'reset': 'G_reset',
@@ -112,7 +112,7 @@ S += [
        subst=[(r'\bValue\{\}', 'XV_DEFAULT_VALUE', 'default_value')], must_fire={'subst:default_value': 1}),
   dict(MAP, id='subscript', sig=r'auto ' + Q + r'operator\[\]\(const Key& key\) -> accessor',
        c_sig='static struct accessor hmm_subscript(struct hmm* self, kkey_t key)',
-       pre_subst=[(r'\[\]\(\)\s*\{.*?\}', 'hmm_default_value_factory', 'lambda')],
+       pre_subst=[(r'\[\]\(\)\s*\{ return Value\{\}; \}', 'hmm_default_value_factory', 'lambda')],
        must_fire={'subst:lambda': 1, 'self_call:get_or_emplace_lazy': 1, 'call:accessor': 1}),
   dict(MAP, id='erase_key', sig=r'bool ' + Q + r'erase\(const Key& key\)',
        c_sig='static _Bool hmm_erase_key(struct hmm* self, kkey_t key)',
@@ -140,3 +140,36 @@ S += [
        post_subst=[(r'return \(\*self\);', 'return self;', 'return_this')],
        must_fire={'subst:return_this': 1, 'A_LOAD': 1, 'method:acquire_if_equal': 1, 'method:find': 1, 'self_call:move_to_next_bucket': 1, 'method:get_hash': 1}),
 ]
+def UW(L, NB):
+  return ['hmm_find.0:2', 'hmm_find.1:1', 'hmm_find.2:1', 'hmm_find.3:1', 'hmm_find.4:%d' % (L + 1), 'hmm_find.5:%d' % (L + 1),
+          'hmm_emplace_or_get.0:1', 'hmm_do_get_or_emplace_lazy.0:1', 'hmm_erase_key.0:1', 'hmm_erase_it.0:1', 'it_move_to_next_bucket.0:%d' % max(NB, 1)]
+def RUN(entry, NB, L, memo, tiers=('quick', 'thorough'), word=None, **kw):
+  d = dict(id='%s_b%d_l%d_m%d%s' % (entry[2:], NB, L, memo, '_w64' if word else ''), entry=entry, cls='shape-complete',
+           defs={'NB': NB, 'L': L, 'XV_MEMO': memo}, unwindset=UW(L, NB), tiers=list(tiers),
+           note='SEQ (no retry is needed: the retry back-edges are unwound 0 times and the unwinding assertions prove it); every loop over the list is unwound completely for the shape')
+  if word: d['defs']['XV_WORD'] = word
+  d.update(kw); return d
+UNIT['runs'] += [
+  dict(id='order', entry='h_order', cls='unbounded', note='loop-free; symbolic hashes (uninterpreted function of the key) and keys'),
+  dict(id='map_to_bucket_b1', entry='h_map_to_bucket', cls='unbounded', defs={'NB': 1}),
+  dict(id='map_to_bucket_b2', entry='h_map_to_bucket', cls='unbounded', defs={'NB': 2}),
+]
+for memo in (0, 1):
+  for e in ('h_find', 'h_lookup', 'h_insert', 'h_erase_key', 'h_inc', 'h_erase_it', 'h_begin'):
+    UNIT['runs'].append(RUN(e, 2, 3, memo))
+UNIT['obligations'].update({
+  'hmm.order.total': dict(deciding=True, text='greater_or_equal is the >= of a total order on (hash, key) that is consistent with key equality, for data_without_hash and data_with_hash'),
+  'hmm.map_to_bucket.range': dict(deciding=True, text='map_to_bucket(h, num_buckets) < num_buckets'),
+  'hmm.find.iff_live': dict(deciding=True, text='internal find / contains / find(key) succeed iff an unmarked node with the key is linked in the bucket'),
+  'hmm.find.position': dict(deciding=True, text='after find: cur is the first unmarked node >= (hash,key) or null, prev/save designate its live predecessor (or the start), *prev == cur, next = cur->next'),
+  'hmm.find.frame': dict(deciding=True, text='find unlinks exactly the marked nodes it passed, retires each exactly once, changes nothing else'),
+  'hmm.mem.safe': dict(deciding=True, text='only guarded nodes (or the private new node) are dereferenced; prev is a bucket head or the next field of the node guarded by save; delete only of the unpublished own node'),
+  'hmm.insert.iff_absent': dict(deciding=True, text='an insertion succeeds iff no unmarked node has the key; then exactly the new node (given key, given/lazily created value, hash) is linked at its sorted position and nothing else changes; otherwise the existing element is returned and the speculative node is freed (lazy variants: never built)'),
+  'hmm.erase.iff_present': dict(deciding=True, text='erase(key) succeeds iff an unmarked node has the key; exactly that node is marked, unlinked and retired once; besides that only marked nodes on the way are unlinked (retired once each)'),
+  'hmm.iter.inc.next_live': dict(deciding=True, text='after ++ the iterator designates the next linked node behind the old position (same bucket, else first node of the next non-empty bucket) or end; never the old element again; prev/save consistent'),
+  'hmm.iter.inc.no_skip': dict(deciding=True, text='++ leaves out no unmarked node between the old and the new position'),
+  'hmm.iter.inc.frame': dict(deciding=True, text='++ changes nothing except unlinking (and retiring once) marked nodes on its way'),
+  'hmm.iter.erase.exact': dict(deciding=True, text='erase(iterator) marks exactly the referenced node, unlinks and retires it once (or leaves that to whoever unlinked it), returns an iterator to the following element'),
+  'hmm.iter.begin.first': dict(deciding=True, text='begin() designates the first linked node of the first non-empty bucket, end() designates nothing'),
+})
+UNIT['canaries'] += ['order.nohash.strict', 'order.hash.collision', 'order.hash.decreasing', 'map_to_bucket.reached']
